@@ -126,7 +126,7 @@ func vStateNonce(state string, encode bool) string {
 
 // one login; the callback presents the own state or an arbitrary one, with the
 // own cookie, a tampered one, a cookie under the right name with arbitrary value, or none
-// verif: unwind=8 strlen=8 ideal havoc=ip.GetClientString also=C05,C06,C08,C13,C14,C18 paths=30000 steps=3000000 concretize=4
+// verif: unwind=8 strlen=8 ideal havoc=ip.GetClientString also=C05,C06,C08,C13,C14,C18,C19 paths=30000 steps=3000000 concretize=4
 func vh_C03_flow_single() {
 	stateKind := ndChoice("state-kind", 3)
 	cookieKind := ndChoice("cookie-kind", 5)
